@@ -558,5 +558,13 @@ func init() {
 			}
 		},
 		Run: func(payload string) string { return c04StripPos(evRunFull(payload)) },
+		// harness C04 -tool payload <source-hex>: the payload (tree of the real parser) of one program
+		Tool: func(args []string) int {
+			if len(args) == 2 && args[0] == "payload" {
+				fmt.Println(evPayload(unhx(args[1])))
+				return 0
+			}
+			return 2
+		},
 	})
 }
